@@ -816,11 +816,16 @@ func checkTypedRaw(tc *typedCase) outcome {
 	decoders := []struct {
 		name string
 		f    func(dst interface{}) error
+		f2   func(in []byte, dst interface{}) error // the same API on another input
 	}{
-		{"DecodeBytes", func(dst interface{}) error { return rlp.DecodeBytes(enc, dst) }},
-		{"Stream.Decode", func(dst interface{}) error { return rlp.NewStream(bytes.NewReader(enc), 0).Decode(dst) }},
+		{"DecodeBytes", func(dst interface{}) error { return rlp.DecodeBytes(enc, dst) },
+			func(in []byte, dst interface{}) error { return rlp.DecodeBytes(in, dst) }},
+		{"Stream.Decode", func(dst interface{}) error { return rlp.NewStream(bytes.NewReader(enc), 0).Decode(dst) },
+			func(in []byte, dst interface{}) error { return rlp.NewStream(bytes.NewReader(in), 0).Decode(dst) }},
 		{"Decode(bufio)", func(dst interface{}) error {
 			return rlp.NewStream(onlyReader{bytes.NewReader(enc)}, uint64(len(enc))).Decode(dst)
+		}, func(in []byte, dst interface{}) error {
+			return rlp.NewStream(onlyReader{bytes.NewReader(in)}, uint64(len(in))).Decode(dst)
 		}},
 	}
 	for _, dc := range decoders {
@@ -841,6 +846,23 @@ func checkTypedRaw(tc *typedCase) outcome {
 		re, err, p := encodeGuard(dst.Interface())
 		if p != nil || err != nil || !bytes.Equal(re, enc) {
 			bad("canonical-reencode", dc.name+fmt.Sprintf(": re-encoding %s err=%v panic=%v", hx(re), err, p), "encoding", hx(enc))
+			continue
+		}
+		// a destination that already holds a value: decoding the encoding of the type's zero value into it
+		// yields that value (what was there before does not shine through)
+		// (not for the harness's own Decoder type: what its DecodeRLP leaves of a previous value is its business)
+		if dst.Kind() == reflect.Ptr && dst.Elem().Kind() != reflect.Interface && !strings.Contains(tc.spec(), "custkind") {
+			zero := reflect.New(dst.Elem().Type())
+			encZero, zerr, zp := encodeGuard(zero.Interface())
+			if zerr == nil && zp == nil && !bytes.Equal(encZero, enc) {
+				if err, p := guard(func() error { return dc.f2(encZero, dst.Interface()) }); p != nil {
+					bad("no-panic", fmt.Sprint(dc.name, " into a used destination panic: ", p), "encoding", hx(encZero))
+				} else if err == nil {
+					if re2, err, p := encodeGuard(dst.Interface()); p == nil && err == nil && !bytes.Equal(re2, encZero) {
+						bad("roundtrip-value", dc.name+fmt.Sprintf(": decoding %s into a destination that held the value of %s gives a value that encodes as %s", hx(encZero), hx(enc), hx(re2)), "encoding", hx(encZero))
+					}
+				}
+			}
 		}
 	}
 	return o
